@@ -15,6 +15,27 @@ NOT_APPLICABLE = {
     'C25': 'orthonormality / completeness of numerically constructed bases',
 }
 
+# rules added in seeding rounds 4-5 (DESIGN.md §7.8), appended to the technique of the checks that run them
+_UNITS = '; abstract interpretation of the scaling degree under a uniform rate scaling (units engine: no test compares a rate-dimensioned quantity with a pure number)'
+_CACHE = '; cache / memo discipline (key completeness, entries neither returned nor mutated, remembered values and cache containers reset by every writer of their sources, module-level caches, guard keys owned)'
+EXTRA_TECHNIQUE = {
+    'C01': _UNITS + '; inverse-index-map placement rule' + _CACHE,
+    'C02': _UNITS + '; inverse-index-map placement rule',
+    'C04': _UNITS + '; reference class of the energy factors multiplying rates; inverse-index-map placement rule',
+    'C06': '; inverse-index-map placement rule' + _CACHE,
+    'C10': _UNITS + '; inverse-index-map placement rule; alias analysis of what a repeated-call guard compares against',
+    'C12': _UNITS,
+    'C13': '; constructor calls in loaders pass every option the constructor reads',
+    'C15': '; shared-mutable-default lint (dict.fromkeys / repetition / chained assignment)',
+    'C16': '; integer evaluation of the projection loop range (every l0 < l)',
+    'C23': '; lattice-vector / in-cell split consistency rule',
+    'C29': '; host-fill coverage rule (loop over every atom index)',
+    'C31': '; lifetime of the seen-set versus the list of orbits it guards; module-level cache key completeness',
+    'C32': '; index-domain rule (mobile flag holds where a looked-up index meets the vacancy index)',
+    'C35': '; once-per-interaction rule for the trial energy sum',
+    'C36': '; hash-by-value rule (no memory representation of a value-compared field)',
+}
+
 # id -> (technique, level text, level note, design ref)
 CLAIMS = {
     'C20': ('whole-group / exact-filter rules on the comprehensions and loops of Crystal.genpoint, genWyckoffsets, Wyckoffpos, '
@@ -291,7 +312,7 @@ def manifest(built):
             'level_note': note + ('; rules read the behaviour-preserving normal form of the tree (sa/engines/norm.py)'
                                   if pid in NORMAL_FORM_PROPS else '; rules read the tree as written, single rules resolve '
                                   'temporaries / guard forms through sa/props/_common.py'),
-            'technique': 'static analysis: ' + tech,
+            'technique': 'static analysis: ' + tech + EXTRA_TECHNIQUE.get(pid, ''),
         })
     na = [{'property_id': k, 'reason': v} for k, v in sorted(NOT_APPLICABLE.items())]
     allids = [json.loads(l)['id'] for l in open(os.path.join(VERIF, 'properties.jsonl'))]
